@@ -3,6 +3,7 @@ NEXT Next
 CONSTANTS
   LeafChoice = "small"
   Steps = 2
+  EmitScripts = FALSE
   Thin = TRUE
 INVARIANT StepsAllowed
 INVARIANT SessionEquivalent
